@@ -85,6 +85,38 @@ Proof.
   eexists. split; [apply gen_run_front|]. apply front_spec_props.
 Qed.
 
+(** NewServer keeps config.Lookup itself in s.lookup (the only value ever
+    stored into a field of that name), nobody but Server.dial calls it, and
+    Server.dial calls it once per call - in the source and in the emitted
+    statements. *)
+Lemma gen_lookup_store_direct :
+  gen_lookup_store = LDirect /\
+  list_eqb String.eqb gen_lookup_callers ["Server.dial"%string] = true /\
+  gen_lookup_calls_in_dial = 1%nat /\
+  lookup_steps gen_dial_steps = 1%nat.
+Proof. repeat split. Qed.
+
+(** Every dial of every history is routed by the lookup's answer and the
+    registry at that dial - for the store and the statements emitted from the
+    current source. *)
+Lemma gen_routed_by_lookup_at_dial_time is_ip has_lk has_home evs lk reg :
+  run_hist is_ip gen_lookup_store gen_rejected_steps gen_dial_steps has_lk has_home lk reg [] evs
+  = spec_hist is_ip gen_rejected_suffixes has_lk has_home lk reg evs.
+Proof.
+  rewrite (proj1 gen_lookup_store_direct), gen_rejected_steps_eq, gen_dial_steps_eq, gen_suffixes_eq.
+  apply routed_by_lookup_at_dial_time.
+Qed.
+
+Lemma gen_memo_server_refuted :
+  let d := [100; 46; 99]%N in let a := [47; 97]%N in let b := [47; 98]%N in
+  let reg := fun n : bytes => if beqb n a then Some 1%N else if beqb n b then Some 2%N else None in
+  let none := fun _ : bytes => mkLk None true in
+  run_hist (fun _ => false) LMemo gen_rejected_steps gen_dial_steps true false none reg [] (memo_history d a b)
+    = [REndpoint 1 a; REndpoint 1 a; REndpoint 1 a] /\
+  spec_hist (fun _ => false) gen_rejected_suffixes true false none reg (memo_history d a b)
+    = [REndpoint 1 a; RLookupErr; REndpoint 2 b].
+Proof. vm_compute. split; reflexivity. Qed.
+
 (** A name for which the lookup returns an error - alone, or together with a
     destination - is refused by the emitted Server.dial. *)
 Lemma gen_lookup_error_always_refuses cfg sni :
